@@ -7,6 +7,9 @@
   of Go) and `Sipsp.GoSem`.
   Methods with a pointer receiver to a STRUCT whose scalar fields they assign are translated as "fields in, assigned
   fields out"; a `panic(...)` statement is `none`.
+  A SCANNING LOOP `for ; cond; i++ { }` becomes a recursive function over explicit fuel (len(buf) + 1); running out of
+  fuel is `none`, so a tie `= some …` also shows that the loop ends within its fuel; a call of an already translated
+  function is a call of its translation.
   Functions that READ a byte slice (`len`, `buf[i]`) are translated into `Option`: `none` is Go's index-out-of-range
   panic; the tie then also says that the function never panics.
   Finite domains are settled by `decide` over the whole domain (complete: such a proof can only fail when the two
@@ -20,6 +23,7 @@ import Sipsp.Generated.Funcs
 import Sipsp.Model.Sig
 import Sipsp.Model.URI
 import Sipsp.Model.Lex
+import Sipsp.Proofs.Scan
 
 namespace Sipsp.TieFuncs
 open Sipsp
@@ -488,5 +492,219 @@ theorem skipCRLF_tie (b : Buf) (i : Nat) :
       have hd : decide (i < b.size) = false := by simp [h0]
       rw [e0]
       simp [hd, errU32, Err.toNat]
+
+/-! ### scanning loops: `skipWS`, `skipToken`, `skipTokenDelim`, `skipLine` -/
+
+private theorem succ_nat (i : Nat) : (Int.ofNat i + 1 : Int) = Int.ofNat (i + 1) := by simp
+
+/-- one unfolding of the fuelled loop at a natural position, with the condition as a function of the byte -/
+theorem skipWS_loop_step (b : Buf) (n i : Nat) :
+    Gen.F.skipWS_loop1 b (n + 1) (Int.ofNat i) =
+      match b[i]? with
+      | none => some (Int.ofNat i)
+      | some c => if isWS c then Gen.F.skipWS_loop1 b n (Int.ofNat (i + 1)) else some (Int.ofNat i) := by
+  rw [Gen.F.skipWS_loop1]
+  simp only [Option.bind_some, idx_nat, lt_nat, succ_nat]
+  by_cases hi : i < b.size
+  · have e0 : b[i]? = some b[i] := Array.getElem?_eq_getElem hi
+    have hd : decide (i < b.size) = true := by simp [hi]
+    rw [e0]
+    simp only [hd, if_true, Option.bind_some]
+    generalize b[i] = c
+    cases h32 : (c == 32) <;> cases h9 : (c == 9) <;> simp [isWS, h32, h9]
+  · have e0 : b[i]? = none := Array.getElem?_eq_none (by omega)
+    have hd : decide (i < b.size) = false := by simp [hi]
+    rw [e0]
+    simp [hd]
+
+theorem skipWS_loop_tie (b : Buf) (i : Nat) : ∀ fuel, b.size - i < fuel →
+    Gen.F.skipWS_loop1 b fuel (Int.ofNat i) = some (Int.ofNat (skipWS b i)) := by
+  fun_induction skipWS b i with
+  | case1 i hb =>
+    intro fuel h
+    cases fuel with
+    | zero => omega
+    | succ n => rw [skipWS_loop_step, hb]
+  | case2 i c hb hl ih =>
+    intro fuel h
+    cases fuel with
+    | zero => omega
+    | succ n =>
+      rw [skipWS_loop_step, hb]
+      simp only [hl, if_true]
+      exact ih n (by have := get?_lt hb; omega)
+  | case3 i c hb hl =>
+    intro fuel h
+    cases fuel with
+    | zero => omega
+    | succ n =>
+      rw [skipWS_loop_step, hb]
+      simp [hl]
+
+-- TIE: skipWS
+/-- **`skipWS` (parse_utils.go), a scanning LOOP**: the translated loop — a recursive function over explicit fuel
+    `len(buf) + 1` — finishes within its fuel, never indexes out of range and returns the model's offset, for every
+    buffer and every start offset -/
+theorem skipWS_tie (b : Buf) (i : Nat) : Gen.F.skipWS b (Int.ofNat i) = some (Int.ofNat (skipWS b i)) := by
+  unfold Gen.F.skipWS
+  rw [skipWS_loop_tie b i (b.size + 1) (by omega)]
+  rfl
+
+theorem skipToken_loop_step (b : Buf) (n i : Nat) :
+    Gen.F.skipToken_loop1 b (n + 1) (Int.ofNat i) =
+      match b[i]? with
+      | none => some (Int.ofNat i)
+      | some c => if isLWSch c then some (Int.ofNat i) else Gen.F.skipToken_loop1 b n (Int.ofNat (i + 1)) := by
+  rw [Gen.F.skipToken_loop1]
+  simp only [Option.bind_some, idx_nat, lt_nat, succ_nat]
+  by_cases hi : i < b.size
+  · have e0 : b[i]? = some b[i] := Array.getElem?_eq_getElem hi
+    have hd : decide (i < b.size) = true := by simp [hi]
+    rw [e0]
+    simp only [hd, if_true, Option.bind_some]
+    generalize b[i] = c
+    cases h32 : (c == 32) <;> cases h9 : (c == 9) <;> cases h13 : (c == 13) <;> cases h10 : (c == 10) <;>
+      simp [isLWSch, bne, h32, h9, h13, h10]
+  · have e0 : b[i]? = none := Array.getElem?_eq_none (by omega)
+    have hd : decide (i < b.size) = false := by simp [hi]
+    rw [e0]
+    simp [hd]
+
+theorem skipToken_loop_tie (b : Buf) (i : Nat) : ∀ fuel, b.size - i < fuel →
+    Gen.F.skipToken_loop1 b fuel (Int.ofNat i) = some (Int.ofNat (skipToken b i)) := by
+  fun_induction skipToken b i with
+  | case1 i hb =>
+    intro fuel h
+    cases fuel with
+    | zero => omega
+    | succ n => rw [skipToken_loop_step, hb]
+  | case2 i c hb hl =>
+    intro fuel h
+    cases fuel with
+    | zero => omega
+    | succ n => rw [skipToken_loop_step, hb]; simp [hl]
+  | case3 i c hb hl ih =>
+    intro fuel h
+    cases fuel with
+    | zero => omega
+    | succ n =>
+      rw [skipToken_loop_step, hb]
+      simp only [hl, Bool.false_eq_true, if_false]
+      exact ih n (by have := get?_lt hb; omega)
+
+-- TIE: skipToken
+/-- **`skipToken` (parse_utils.go), a scanning LOOP**: the translated loop — a recursive function over explicit fuel
+    `len(buf) + 1` — finishes within its fuel, never indexes out of range and returns the model's offset, for every
+    buffer and every start offset -/
+theorem skipToken_tie (b : Buf) (i : Nat) : Gen.F.skipToken b (Int.ofNat i) = some (Int.ofNat (skipToken b i)) := by
+  unfold Gen.F.skipToken
+  rw [skipToken_loop_tie b i (b.size + 1) (by omega)]
+  rfl
+
+theorem skipTokenDelim_loop_step (b : Buf) (d : UInt8) (n i : Nat) :
+    Gen.F.skipTokenDelim_loop1 b d (n + 1) (Int.ofNat i) =
+      match b[i]? with
+      | none => some (Int.ofNat i)
+      | some c => if isLWSch c || c == d then some (Int.ofNat i)
+                  else Gen.F.skipTokenDelim_loop1 b d n (Int.ofNat (i + 1)) := by
+  rw [Gen.F.skipTokenDelim_loop1]
+  simp only [Option.bind_some, idx_nat, lt_nat, succ_nat]
+  by_cases hi : i < b.size
+  · have e0 : b[i]? = some b[i] := Array.getElem?_eq_getElem hi
+    have hd : decide (i < b.size) = true := by simp [hi]
+    rw [e0]
+    simp only [hd, if_true, Option.bind_some]
+    generalize b[i] = c
+    cases h32 : (c == 32) <;> cases h9 : (c == 9) <;> cases h13 : (c == 13) <;> cases h10 : (c == 10) <;>
+      cases hdl : (c == d) <;> simp [isLWSch, bne, h32, h9, h13, h10, hdl]
+  · have e0 : b[i]? = none := Array.getElem?_eq_none (by omega)
+    have hd : decide (i < b.size) = false := by simp [hi]
+    rw [e0]
+    simp [hd]
+
+theorem skipTokenDelim_loop_tie (b : Buf) (i : Nat) (d : UInt8) : ∀ fuel, b.size - i < fuel →
+    Gen.F.skipTokenDelim_loop1 b d fuel (Int.ofNat i) = some (Int.ofNat (skipTokenDelim b i d)) := by
+  fun_induction skipTokenDelim b i d with
+  | case1 i hb =>
+    intro fuel h
+    cases fuel with
+    | zero => omega
+    | succ n => rw [skipTokenDelim_loop_step, hb]
+  | case2 i c hb hl =>
+    intro fuel h
+    cases fuel with
+    | zero => omega
+    | succ n => rw [skipTokenDelim_loop_step, hb]; simp [hl]
+  | case3 i c hb hl ih =>
+    intro fuel h
+    cases fuel with
+    | zero => omega
+    | succ n =>
+      rw [skipTokenDelim_loop_step, hb]
+      simp only [hl, Bool.false_eq_true, if_false]
+      exact ih n (by have := get?_lt hb; omega)
+
+-- TIE: skipTokenDelim
+/-- **`skipTokenDelim` (parse_utils.go), a scanning LOOP**: the translated loop — a recursive function over explicit fuel
+    `len(buf) + 1` — finishes within its fuel, never indexes out of range and returns the model's offset, for every
+    buffer and every start offset -/
+theorem skipTokenDelim_tie (b : Buf) (i : Nat) (d : UInt8) :
+    Gen.F.skipTokenDelim b (Int.ofNat i) d = some (Int.ofNat (skipTokenDelim b i d)) := by
+  unfold Gen.F.skipTokenDelim
+  rw [skipTokenDelim_loop_tie b i d (b.size + 1) (by omega)]
+  rfl
+
+theorem skipLine_loop_step (b : Buf) (n i : Nat) :
+    Gen.F.skipLine_loop1 b (n + 1) (Int.ofNat i) =
+      match b[i]? with
+      | none => some (Int.ofNat i)
+      | some c => if isCRLFch c then some (Int.ofNat i) else Gen.F.skipLine_loop1 b n (Int.ofNat (i + 1)) := by
+  rw [Gen.F.skipLine_loop1]
+  simp only [Option.bind_some, idx_nat, lt_nat, succ_nat]
+  by_cases hi : i < b.size
+  · have e0 : b[i]? = some b[i] := Array.getElem?_eq_getElem hi
+    have hd : decide (i < b.size) = true := by simp [hi]
+    rw [e0]
+    simp only [hd, if_true, Option.bind_some]
+    generalize b[i] = c
+    cases h13 : (c == 13) <;> cases h10 : (c == 10) <;> simp [isCRLFch, bne, h13, h10]
+  · have e0 : b[i]? = none := Array.getElem?_eq_none (by omega)
+    have hd : decide (i < b.size) = false := by simp [hi]
+    rw [e0]
+    simp [hd]
+
+theorem skipLine_loop_tie (b : Buf) (i : Nat) : ∀ fuel, b.size - i < fuel →
+    Gen.F.skipLine_loop1 b fuel (Int.ofNat i) = some (Int.ofNat (skipToEOL b i)) := by
+  fun_induction skipToEOL b i with
+  | case1 i hb =>
+    intro fuel h
+    cases fuel with
+    | zero => omega
+    | succ n => rw [skipLine_loop_step, hb]
+  | case2 i c hb hl =>
+    intro fuel h
+    cases fuel with
+    | zero => omega
+    | succ n => rw [skipLine_loop_step, hb]; simp [hl]
+  | case3 i c hb hl ih =>
+    intro fuel h
+    cases fuel with
+    | zero => omega
+    | succ n =>
+      rw [skipLine_loop_step, hb]
+      simp only [hl, Bool.false_eq_true, if_false]
+      exact ih n (by have := get?_lt hb; omega)
+
+-- TIE: skipLine
+/-- **`skipLine` (parse_utils.go)**: a scanning loop followed by a CALL of the translated `skipCRLF` = the model's
+    `skipLine` (skip to the line end, then recognise it), for every buffer and every start offset -/
+theorem skipLine_tie (b : Buf) (i : Nat) :
+    Gen.F.skipLine b (Int.ofNat i) =
+      some (Int.ofNat (skipLine b i).1, Int.ofNat (skipLine b i).2.1, errU32 (skipLine b i).2.2) := by
+  unfold Gen.F.skipLine skipLine
+  rw [skipLine_loop_tie b i (b.size + 1) (by omega)]
+  simp only [Option.bind_some]
+  rw [skipCRLF_tie]
+  rfl
 
 end Sipsp.TieFuncs
